@@ -47,17 +47,32 @@ def make_items(ctx, only=None):
             raise C.InfraError('fault-free abilint run died on workload document %s: %s %s' % (name, plain.klass, diff.klass))
         body = open(path, 'rb').read()
         ob = diff.res['simf']['objects'][0]
-        items[name] = {'name': name, 'path': path, 'fixpoint': plain.exit == 0 and plain.stdout == body, 'plain_exit': plain.exit,
+        items[name] = {'name': name, 'path': path, 'fixpoint': plain.exit == 0 and plain.stdout == body, 'plain_exit': plain.exit, 'plain_sha': C.sha(plain.stdout or b''),
                        'diff_exit': diff.exit, 'W': ob['writes'], 'tmp_bytes': ob['bytes_w'],
                        'bytes_at_system': diff.res['simf'].get('bytes_at_system', [0])[0], 'system_calls': diff.res['simf'].get('system_calls', 0)}
     ctx.memo.setdefault('items', {}).update(items)
     return items
 
 
-KINDS = ['none', 'short-ok', 'enospc', 'eio-once', 'short-then-enospc', 'open-fail', 'twin', 'twin']
+KINDS = ['none', 'short-ok', 'enospc', 'eio-once', 'short-then-enospc', 'open-fail', 'twin', 'twin', 'hostile-env']
 # 'twin': a second, concurrent `abilint --diff` (a whole run of the same executable, started by the helper process) on a
 # *different* document that has the *same file name* in another directory, scheduled by the simulator at one instant of
 # the first run: before its temporary file is opened, before its k-th write, before its close, or before its `diff`.
+# 'hostile-env': the same command in another process environment: HOME holds an .abignore (and the LIBABIGAIL_DEFAULT_*_SUPPRESSION_FILE
+# variables name files) whose rules would drop every function, variable and type.  abilint takes suppressions from --suppr only; what it
+# re-emits and the verdict of --diff must be those of the clean environment.
+HOSTILE = b"""[suppress_function]
+  name_regexp = .*
+  drop = yes
+
+[suppress_variable]
+  name_regexp = .*
+  drop = yes
+
+[suppress_function]
+  symbol_name_regexp = .*
+  drop = yes
+"""
 TWIN_AT = ['system', 'system', 'open', 'write', 'close']
 
 
@@ -102,6 +117,7 @@ def make_plans(ctx, tier, items):
         for j, other in enumerate(names):
             for at in ('system', 'open', 'close', 'write'):
                 plans.append({'item': n, 'params': {'kind': 'twin', 'faults': [], 'twin': {'doc': other, 'at': at, 'k': (j * 7) % max(it['W'], 1) if at == 'write' else 0}}})
+        plans.append({'item': n, 'params': {'kind': 'hostile-env', 'faults': []}})
         for kind in KINDS[:6]:
             ks = range(max(it['W'], 1)) if kind in ('short-ok', 'enospc', 'eio-once', 'short-then-enospc') else [0, 1] if kind == 'open-fail' else [0]
             for k in ks:
@@ -118,7 +134,29 @@ def make_plans(ctx, tier, items):
     return plans
 
 
+def execute_hostile(ctx, it, params):
+    def prepare(run):
+        h = os.path.join(run, 'home'); os.makedirs(h)
+        for n in ('.abignore', 'system.abignore'):
+            open(os.path.join(h, n), 'wb').write(HOSTILE)
+    env = {'HOME': '@RUN@/home', 'LIBABIGAIL_DEFAULT_USER_SUPPRESSION_FILE': '@RUN@/home/.abignore', 'LIBABIGAIL_DEFAULT_SYSTEM_SUPPRESSION_FILE': '@RUN@/home/system.abignore'}
+    td = dict(tmpl(it['path'], True), env=env)
+    tp = dict(tmpl(it['path'], False), env=env)
+    od = ctx.run('abilint', td, prepare=prepare)
+    op = ctx.run('abilint', tp, prepare=prepare)
+    verdict = None
+    if od.klass[0] == 'exit' and od.exit != it['diff_exit']:
+        verdict = ('diff-verdict-inconsistent', 'abilint --diff exits %d where HOME holds an .abignore and the default-suppression variables are set; %d in a clean environment' % (od.exit, it['diff_exit']))
+    elif op.klass[0] == 'exit' and (op.exit != it['plain_exit'] or C.sha(op.stdout or b'') != it['plain_sha']):
+        verdict = ('diff-verdict-inconsistent', 'what abilint re-emits depends on the process environment (HOME/.abignore, LIBABIGAIL_DEFAULT_*_SUPPRESSION_FILE): exit %d, %d bytes' % (op.exit, len(op.stdout or b'')))
+    return F.Result(verdict, verdict[0] + ':environment' if verdict else None, ['environment/default-suppression-files'], [(it['name'], 'hostile-env')],
+                    digest=(od.exit, op.exit, C.sha(op.stdout or b'')), info={'exit': od.exit, 'private_tmp': od.res.get('private_tmp'), 'plain_exit': op.exit, 'document_is_fixpoint': it['fixpoint']},
+                    outcome=od.status_key())
+
+
 def execute(ctx, it, params):
+    if params.get('kind') == 'hostile-env':
+        return execute_hostile(ctx, it, params)
     fl = params['faults']
     tw = params.get('twin')
     prepare = None
